@@ -54,6 +54,7 @@ type funcContract struct {
 	callAssumeReq map[string]bool
 	exactDiv      bool
 	exactDivs     []string
+	exactConsts   []string
 	holds         []holdSpec
 	readsUnlocked map[string]string
 	setupOnly     string
@@ -460,6 +461,10 @@ func (cs *contractSet) loadFile(path, pkgPath string) error {
 				// for functions whose divisor ranges over a small set the contract enumerates
 				cur.exactDiv = true
 				cur.exactDivs = strings.Fields(rest) // optional: the constants the divisor ranges over
+			case "exact_consts":
+				// signed products x*y and quotients x/y whose second operand ranges over the listed constants are
+				// translated exactly (ite chain over the constants) instead of by the abstract uf_mul / uf_div
+				cur.exactConsts = strings.Fields(rest)
 			case "dynamic_calls_modify_nothing":
 				cur.dynPure = true
 			case "requires":
